@@ -1,4 +1,5 @@
 import HC.Proofs.Verify
+import HC.Proofs.Complete
 /-!
 # C03 — any honest proof is accepted and replicas converge to the writer's data
 
@@ -10,10 +11,21 @@ Proved so far:
 * `accepted_events` : the events of an applied proof are exactly "upgrade iff it carried an upgrade"
   followed by "have (index, 1) iff it carried a block".
 
-Partial: that `create_proof`'s answer to a well-formed request passes `verify_proof` on the replica
-(`verify_complete`) is not proved yet; it is validated by the correspondence run — every honest
-proof (all request orders, partial upgrades with additional nodes, seeks, replica reopen, cleared
-blocks) must be accepted by the real crate and by the model, and the replica must converge.
+* **`honest_block_accepted`** (unbounded): for every log, every writer state whose roots and node lookup
+  are the reference tree (what `C01.live_refinement` maintains), every sparse replica of that log — it
+  stores only reference nodes inside its length and stores its roots — and every block index below the
+  replica's length: the replica's own `missing_nodes` count, the writer's `create_valueless_proof` for
+  that request, and the block's bytes form a proof that the replica's `verify_proof` accepts; all nodes of
+  the resulting changeset are reference nodes.  Components: `missing_nodes_spec` (the count leads to a
+  stored ancestor inside the replica's tree), `writer_answers` (the writer returns the reference siblings
+  along the path), `block_accepted` (the climb over them reaches that ancestor and the comparison with the
+  stored node succeeds).
+
+Partial: proofs with a hash, seek or upgrade
+section, and the application step after verification (data offset, commit) are not proved complete;
+they are validated by the correspondence run — every honest proof (all request orders, partial upgrades
+with additional nodes, seeks, hash sweeps, replica reopen, cleared blocks) must be accepted by the real
+crate and by the model, and the replica must converge.
 -/
 namespace HC.C03
 open HC HC.Core HC.Tree
@@ -26,5 +38,60 @@ theorem accepted_events (c : Core) (p : Proof) (cs : Changeset) (j0 : List SOp) 
     (applyVerified c p cs j0 bu).events = appliedEvents p bu := by
   unfold applyVerified at h ⊢
   exact finishApply_events _ _ _ _ _ _ _ _ h
+
+theorem missing_nodes_spec (C : Crypto) (bs : Array Bytes) (m : Nat) (t : Tree) (f : File)
+    (hS : Complete.Sparse C bs m t f) (hm : m < 2 ^ 64) (i : Nat) (hi : i < m) :
+    t.node? f (Flat.index (t.missingNodes f (2 * i)) (i / 2 ^ t.missingNodes f (2 * i)))
+        = some (RefTree.nodeAt C bs (t.missingNodes f (2 * i)) (i / 2 ^ t.missingNodes f (2 * i)))
+      ∧ (i / 2 ^ t.missingNodes f (2 * i) + 1) * 2 ^ t.missingNodes f (2 * i) ≤ m :=
+  Complete.missingNodes_spec C bs m t f hS hm i hi
+
+theorem writer_answers (C : Crypto) (bs : Array Bytes) (t : Tree) (f : File) (hT : RefProof.RootsOK C bs t.changeset)
+    (hN : Offsets.NodesOK C bs t f) (hs : bs.size < 2 ^ 64) (i k : Nat) (hi : i < bs.size)
+    (hk : (i / 2 ^ k + 1) * 2 ^ k ≤ bs.size) :
+    t.createValuelessProof f (some ⟨i, k⟩) none none none
+      = .ok ⟨t.fork, some ⟨i, Complete.sibPath C bs 0 i k⟩, none, none, none⟩ :=
+  Complete.create_block_proof C bs t f hT hN hs i k hi hk
+
+theorem block_accepted (C : Crypto) (bs : Array Bytes) (t : Tree) (f : File) (pk : Bytes) (i k fork : Nat)
+    (hstored : t.node? f (Flat.index k (i / 2 ^ k)) = some (RefTree.nodeAt C bs k (i / 2 ^ k))) :
+    ∃ cs, t.verifyProof C f ⟨fork, some ⟨i, bs.getD i [], Complete.sibPath C bs 0 i k⟩, none, none, none⟩ pk = .ok cs
+      ∧ cs.upgraded = t.changeset.upgraded ∧ cs.length = t.length
+      ∧ (∀ n ∈ cs.rnodes, ∃ dn on, n = RefTree.nodeAt C bs dn on) :=
+  Complete.block_proof_complete C bs t f pk i k fork hstored
+
+/-- honest block exchange, end to end on the verification side -/
+theorem honest_block_accepted (C : Crypto) (bs : Array Bytes) (tw : Tree) (fw : File) (tr : Tree) (fr : File) (m : Nat)
+    (hT : RefProof.RootsOK C bs tw.changeset) (hN : Offsets.NodesOK C bs tw fw) (hs : bs.size < 2 ^ 64)
+    (hS : Complete.Sparse C bs m tr fr) (hm : m ≤ bs.size) (i : Nat) (hi : i < m) (pk : Bytes) :
+    ∃ nodes cs, tw.createValuelessProof fw (some ⟨i, tr.missingNodes fr (2 * i)⟩) none none none
+        = .ok ⟨tw.fork, some ⟨i, nodes⟩, none, none, none⟩
+      ∧ tr.verifyProof C fr ⟨tw.fork, some ⟨i, bs.getD i [], nodes⟩, none, none, none⟩ pk = .ok cs
+      ∧ (∀ n ∈ cs.rnodes, ∃ dn on, n = RefTree.nodeAt C bs dn on) :=
+  Complete.honest_block_accepted C bs tw fw tr fr m hT hN hs hS hm i hi pk
+
+/-- non-vacuity: a replica that stores the whole reference tree of a one-block log is `Sparse` -/
+example (C : Crypto) (hC : TreeStore.HashWF C) : Complete.Sparse C #[[1, 2, 3]] 1
+    { length := 1, unflushed := (∅ : Std.HashMap Nat Codec.Node).insert 0 (RefTree.nodeAt C #[[1, 2, 3]] 0 0) } File.empty := by
+  refine ⟨rfl, ?_, ?_⟩
+  · intro i n h
+    simp only [Tree.node?, Std.HashMap.getElem?_insert, Std.HashMap.getElem?_empty] at h
+    by_cases h0 : (0 : Nat) == i
+    · simp only [h0, ite_true] at h
+      have hb := TreeStore.nodeAt_not_blank C hC #[[1, 2, 3]] 0 0
+      simp only [hb, Bool.false_eq_true, ite_false, Option.some.injEq] at h
+      refine ⟨0, 0, ?_, h.symm, by simp⟩
+      have : i = 0 := by simpa using (beq_iff_eq.mp h0).symm
+      rw [this]; simp [Flat.index]
+    · simp only [h0, Bool.false_eq_true, ite_false] at h
+      simp [File.read, File.empty, File.size, Spec.nodeSize] at h
+  · intro p hp
+    have h1 : RefTree.rootsStack 1 = [(0, 0)] := by
+      rw [RefProof.rootsStack_odd 1 (by decide)]; simp [RefProof.rootsStack_zero]
+    rw [h1] at hp
+    simp only [List.mem_singleton] at hp
+    subst hp
+    have hb := TreeStore.nodeAt_not_blank C hC #[[1, 2, 3]] 0 0
+    simp [Tree.node?, Flat.index, Std.HashMap.getElem?_insert, hb]
 
 end HC.C03
